@@ -40,7 +40,7 @@ func qtBuild(c *ctx, shard int, bndLo, bndHi int, pts [][2]int, rem []int) (*qua
 	next := 1
 	c.emitTo(shard, qtEv{K: "qt", Op: "reset", Items: [][3]int{}, Nodes: [][7]int{}, Finds: [][]int{}, KNN: [][]int{}, Inb: [][]int{}})
 	step := func(op string, p [2]int, id int) bool {
-		e, site := qtApply(q, ptrs, &next, bnd, op, p, id)
+		e, site := qtApply(q, ptrs, &next, bnd, op, p, id, nil)
 		if site == "" {
 			site = guard(func() { qtObserve(q, &e, &qtQueries{noQuery: true}, false) })
 		}
